@@ -372,4 +372,39 @@ def r6_settings_survive_derived_copies(ctx):
     r5_readout_replace_complete(ctx)
 
 
-RULES = [r6_settings_survive_derived_copies, r1_exactly_one, r2_ctor_setter_parity, r3_documented_ranges, r5_builders_not_crosswired]
+def r7_range_expressions(ctx):
+    """eval_range: a sequence is returned as list(values) (order kept), a number as [number], the placeholder '_' as ['_']; a string mentioning numpy is evaluated with only `numpy` in scope and converted element by element in order; ParameterValues iterates eval_range(self.values) in order and Readout evaluates its times through eval_range."""
+    f = ctx.func("pyxel.evaluator:eval_range")
+    v = f.params[0]
+    defs = {norm(val): [(norm(t), pol) for t, pol in enclosing_tests(s_)] for s_, val in local_defs(f, "values_lst") if val is not None}
+    ok = f"list({v})" in defs and any(("isinstance" in t and "Sequence" in t and pol) for t, pol in defs.get(f"list({v})", []))
+    ctx.check(ok, f.qual + "#sequence", "a sequence is returned as list(values)" if ok else "a literal list of values is not returned as given", where=f, node=f.node)
+    ok = f"[{v}]" in defs
+    ctx.check(ok, f.qual + "#number", "a number becomes a one-element list" if ok else "a single number is not wrapped as [number]", where=f, node=f.node)
+    ok = "['_']" in defs
+    ctx.check(ok, f.qual + "#placeholder", "'_' stays the placeholder" if ok else "the placeholder '_' is evaluated", where=f, node=f.node)
+    evs = [c for c in calls_in(f.node) if call_name(c) == "eval"]
+    ok = len(evs) == 2
+    for c in evs:
+        loc = expand(f, c.args[2]) if len(c.args) > 2 else None
+        ok = ok and loc is not None and (norm(loc) in ("{}",) or (isinstance(loc, ast.Dict) and [getattr(k, "value", None) for k in loc.keys] == ["numpy"]))
+    ctx.check(ok, f.qual + "#eval-scope", "expressions are evaluated with an empty scope or only `numpy`" if ok else "range expressions are evaluated with a wider scope", where=f, node=evs[0] if evs else f.node)
+    exp = [norm(expand(f, val)) if val is not None else "" for s_, val in local_defs(f, "values_lst")]
+    ok = f"list(eval({v}, {{}}, {{}}))" in exp
+    ctx.check(ok, f.qual + "#plain-expression", "a plain expression becomes list(eval(text)) in order" if ok else "a plain list expression is not returned as list(<evaluated text>)", where=f, node=f.node)
+    comps = [val for s_, val in local_defs(f, "values_lst") if isinstance(val, ast.ListComp)]
+    ok = len(comps) == 2 and all(len(c.generators) == 1 and not c.generators[0].ifs and dotted(c.generators[0].iter) == "values_array" and norm(c.elt) in (f"float({norm(c.generators[0].target)})", f"int({norm(c.generators[0].target)})") for c in comps)
+    ctx.check(ok, f.qual + "#numpy-order", "numpy results are converted element by element, in order, unfiltered" if ok else "numpy range results are filtered or reordered", where=f, node=comps[0] if comps else f.node)
+    rets = [r for r in returns_of(f) if r.value is not None]
+    ok = len(rets) == 1 and dotted(rets[0].value) == "values_lst"
+    ctx.check(ok, f.qual + "#return", "returns the list" if ok else "does not return the evaluated list", where=f, node=rets[0] if rets else f.node)
+    it = ctx.func("pyxel.observation.parameter_values:ParameterValues.__iter__")
+    txt = norm(it.node)
+    ok = "eval_range(self.values)" in txt and ("yield from values" in txt or "yield from eval_range(self.values)" in txt)
+    ctx.check(ok, it.qual, "iterates eval_range(self.values) in order" if ok else "ParameterValues does not iterate eval_range(self.values)", where=it, node=it.node)
+    ro = ctx.func("pyxel.exposure.readout:Readout.__init__")
+    ok = "np.array(eval_range(times), dtype=float)" in norm(ro.node)
+    ctx.check(ok, ro.qual + "#times", "readout times = eval_range(times) as floats" if ok else "readout times are not evaluated through eval_range", where=ro, node=ro.node)
+
+
+RULES = [r7_range_expressions, r6_settings_survive_derived_copies, r1_exactly_one, r2_ctor_setter_parity, r3_documented_ranges, r5_builders_not_crosswired]
